@@ -62,6 +62,87 @@ CLAIMS = {
          "is not decided.",
          "Trusted: CPython ast; CFG; normalisation of comparisons over a total order (counters are integers).",
          "DESIGN.md 4/C10"),
+ "C01": ("abstract interpretation over a coordinate-frame domain {U,A,R,?} with exactness facts (context-sensitive, one run per configuration of scaling/projections/"
+         "regulariser), reaching-definition routing check of every evaluate_objective argument, affine normal forms for shift_base, who-may-write inventory",
+         "Static decision of 'which operation is last on every path': objfun has one call site; every evaluated point is assigned only from Model.as_absolute_coordinates; "
+         "in every configuration each clamp/scaling/callback site has frame-consistent operands and the value reaching objfun and soln.x carries the facts lo:user.xl and "
+         "hi:user.xu (no arithmetic after the last clamp against the user's bounds); xbase/sl/su are written only by Model.__init__/shift_base and shift_base keeps sl+xbase, "
+         "su+xbase, points+xbase invariant. The statement is structural, so this is essentially the whole property (known finding: un-scaling after the clamp).",
+         "Trusted: IEEE min/max return an operand; bounds consistent (lower <= upper); dykstra summary justified by C15-2; copy/view semantics of the NumPy calls modelled in dfv/frames.py.",
+         "DESIGN.md 4/C01"),
+ "C06": ("0-CFA propagation of callable/tuple role atoms from solve's parameters to every callback call site, signature binding of starred user tuples, "
+         "frame interpretation of projector lists and callback arguments per configuration",
+         "Static decision of the pass-through and frame clauses only: every call of role h/prox_uh/objfun star-expands exactly the tuple of its own role; no user tuple is "
+         "star-expanded into a fixed-arity internal callee and no None default can be star-expanded; every projector handed to dykstra acts in the frame of the projected point; "
+         "callbacks are evaluated in user coordinates. Convergence to the regularised optimum is numerical and NOT decided.",
+         "Trusted: CPython ast; the frame algebra of dfv/frames.py.",
+         "DESIGN.md 4/C06"),
+ "C09": ("frame/exactness interpretation under the configurations with projections, mutation inventory of every list that may hold user projections, interpreter run with "
+         "scaling and projections both requested",
+         "Static decision that with projections every x handed to objfun (x0 included) is the unmodified output of a Dykstra call whose last projector clamps against copies of "
+         "the user's bounds; that the projection list is a fresh list with the box appended once after all user projectors and never mutated afterwards; that scaling is None "
+         "whenever projections are given. The sqrt(p*tol) distance bound itself is numerical (its premises are C15-3/4).",
+         "Trusted: dykstra summary (result = last projector's output, C15-2); at least one sweep runs.",
+         "DESIGN.md 4/C09"),
+ "C11": ("must-pass-through queries pairing the Jacobian assignment with the label snapshot, value-flow alias query (no .copy()-free path from Model.eval_num to the stored labels), "
+         "role provenance of the labels, shape/guard/loop analysis of the single un-scaling statement in solve",
+         "Static decision that matrix and labels are produced and travel together (interpolation, saved slot, final selection, hard-restart merge), that the label snapshot is a copy, "
+         "that labels are point numbers, and that the returned Jacobian is rescaled exactly once (column i divided by scaling_changes[1][i], outside every other loop, under exactly "
+         "`scaling_changes is not None and jacmin is not None`). Equality with an independent fit is numerical and not decided.",
+         "Trusted: CPython ast; CFG; np.ndarray.copy() returns a fresh array.",
+         "DESIGN.md 4/C11"),
+ "C12": ("reaching definitions on every return of trsbox/alt_trust_step, shape check of d_within_bounds, loop-form lint and call-graph recursion check",
+         "Static decision of two structural clauses of the pure-Python path only: every returned step comes out of d_within_bounds (clamp + pinning + '- xopt'), and every loop of "
+         "the sub-problem routines is a for over a range fixed before the loop with no recursion (the routine returns for every input). Norm bound, model decrease, Cauchy decrease "
+         "and gnew = g + H d are numerical and NOT decided; the optional Fortran back end is outside the analysed source.",
+         "Trusted: CPython ast; CFG.",
+         "DESIGN.md 4/C12"),
+ "C13": ("definition/mutation inventory of the projector list in each ctrsbox_* routine, dominator queries in Controller.trust_region_step, frame interpretation of the step routines, loop-form lint",
+         "Static decision that the trust-region ball pball(., centre, radius) of the routine's own centre/radius is the last set handed to Dykstra over a fresh copy of the caller's "
+         "list; that every regularised step passes `pred_reduction < 0 => d = 0` with pred_reduction computed from the returned (gopt, H, d); frame agreement at all arithmetic/clamp/"
+         "dykstra sites of the step routines; totality. Box to 1e-12, global optimality to 1e-6 and ||d|| <= Delta(1+1e-8) are numerical and NOT decided.",
+         "Trusted: dykstra summary (C15-2); CPython ast.",
+         "DESIGN.md 4/C13"),
+ "C14": ("symbolic comparison of allocation/return shapes and a must-pass-through/last-write check of the clamp loop in both random-direction generators",
+         "Static decision of the generator clauses only: at least num_pts columns are allocated and exactly the first num_pts returned; the last write to every returned column on every "
+         "path is a clamp against (lower, upper) over range(num_pts). Distances, affine independence and conditioning of the initial set are numerical and NOT decided.",
+         "Trusted: CPython ast; CFG.",
+         "DESIGN.md 4/C14"),
+ "C15": ("counting data-flow for the sweep counter, reaching definitions of the returned variable, placement/shape check of the stopping accumulator, symbolic execution of one "
+         "inner iteration over affine normal forms",
+         "Static decision that dykstra performs at most max_iter sweeps, that its result is exactly the last projector's output, and of the two premises of the sqrt(p*tol) feasibility "
+         "bound (the stopping quantity sums the squared change of every correction vector of the sweep; each sub-step moves x by exactly the change of its correction vector). "
+         "Distances and 1e-3 optimality are numerical and NOT decided.",
+         "Trusted: CPython ast; integer-coefficient affine arithmetic of dfv/affine.py.",
+         "DESIGN.md 4/C15"),
+ "C16": ("typestate data-flow (flag may-be-true / cleared / written-while-true) over every Model method with the read-set of interpolation_matrix computed from the call graph, "
+         "ownership inventory, affine normal forms for shift_base, re-basing check of live relative locals at shift_base call sites",
+         "Static decision that every mutation of what the cached factorisation depends on clears factorisation_current on every path, that only factorise_geom_system validates the cache "
+         "after recomputing Q, R, that no Model field is written outside the class, and that shift_base is an affine no-op for model values and the assembled model. "
+         "Interpolation / least-squares / Lagrange identities are numerical and NOT decided.",
+         "Trusted: CPython ast; CFG; np.dot(J, .) is linear.",
+         "DESIGN.md 4/C16"),
+ "C17": ("sibling cross-check of the per-point record across change_point/swap_points/add_new_point/add_new_sample, shape analysis of sample-count and objective stores, "
+         "complete decision tables of selection guards, bound check of every store to the incumbent index",
+         "Static decision that the five per-point arrays move together under relocation/append/replace/re-sample, that sample counts are 1 on replace and +1 on re-sample, that each stored "
+         "objective is sumsq(residual)[+h], that incumbent moves and the final selection have correct tables for ordering, ties, NaN and None, and that kopt stays below npt(). "
+         "'stored residual is the arithmetic mean of its samples' is NOT decided.",
+         "Trusted: CPython ast; IEEE NaN comparison semantics in the table evaluator.",
+         "DESIGN.md 4/C17"),
+ "C18": ("forward data-flow of the ordering fact delta >= rho with max/min/literal-factor inference rules, method summaries and validated option implications; writer inventory of rho "
+         "with parameter-table ranges; growth-cap lint; lock-step (stale copy) check of Controller.rhoend vs solve_main's rhoend; per-column append-count data-flow and docs agreement",
+         "Static decision that delta >= rho is provable at every break/continue/return and recording point, that rho has its four writers with non-increasing reducer cases, that growth "
+         "of delta is wrapped in min(., 1e10), that the controller's and the main loop's rhoend are rescaled identically, and that the diagnostic table gets exactly one append per "
+         "column per recorded iteration with documented columns. rho > 0, rhoend <= rho and monotone best objective depend on values and are NOT decided.",
+         "Trusted: rho >= 0; rho <= rhobeg (from the writer inventory; geometric-mean case of reduce_rho assumed).",
+         "DESIGN.md 4/C18"),
+ "C19": ("guarded taint over the call graph (global-RNG uses vs documented random options, dominance-based guards), nondeterminism/hidden-state inventory, flow-sensitive ownership "
+         "lattice {caller, fresh} over solve with alias summaries of callees",
+         "Static decision that every numpy.random use reachable from solve is guarded on every call path by an option documented as random (one checked exception), that no other "
+         "nondeterminism or hidden state exists, and that caller-owned mutable arguments are copied before any in-place operation and never handed on un-copied. The statement is "
+         "structural apart from the determinism of NumPy/SciPy kernels, which is trusted.",
+         "Trusted: copy/view semantics of astype/asarray/slicing/list(); frozen table of documented random options in dfv/tables.py.",
+         "DESIGN.md 4/C19"),
 }
 
 NOT_APPLICABLE = {
